@@ -28,7 +28,7 @@ Section Closure.
     c_set_lst : forall l, P (set_lst l);
     c_assert_done : forall i, P (assert_done abort i);
     c_catch : forall A ids (m h : M A), P m -> P h -> P (catch_exceeded abort ids m h);
-    c_problem : forall e, P (if abort then @fail unit e else emit (Wn e)) }.
+    c_problem : forall pa ex fo, P (if abort then @fail unit (EEncMismatch pa ex fo) else emit (Wn (EEncMismatch pa ex fo))) }.
 
   Hypothesis C : closed.
 
